@@ -77,13 +77,26 @@ pub fn tree(t: &mut Tape, depth: u32) -> V {
     if depth == 0 || t.chance(90) {
         return leaf(t);
     }
-    match t.choose(4) {
+    match t.choose(6) {
         0 => pair(tree(t, depth - 1), tree(t, depth - 1)),
         1 | 2 => {
             let n = t.choose(5);
             V::List((0..n).map(|_| tree(t, depth - 1)).collect())
         }
-        _ => V::Concat(Box::new(tree(t, depth - 1)), Box::new(tree(t, depth - 1))),
+        3 => V::Concat(Box::new(tree(t, depth - 1)), Box::new(tree(t, depth - 1))),
+        // the same sub-value more than once (the sharing build mode puts all occurrences at one address)
+        4 => {
+            let x = tree(t, depth - 1);
+            match t.choose(3) {
+                0 => pair(x.clone(), x),
+                1 => V::Concat(Box::new(x.clone()), Box::new(x)),
+                _ => V::List(vec![x.clone(), tree(t, depth - 1), x]),
+            }
+        }
+        _ => {
+            let x = tree(t, depth - 1);
+            V::Concat(Box::new(V::Concat(Box::new(x.clone()), Box::new(tree(t, depth - 1)))), Box::new(x))
+        }
     }
 }
 
@@ -222,6 +235,20 @@ pub fn small_pool() -> Vec<V> {
         l(vec![text("a"), V::Char('a')]),
         l(vec![V::Char('a'), text("a")]),
         l(vec![V::Unit, V::False]),
+        // the same compound sub-value occurring twice (one address in the sharing build mode) and its flat spelling
+        {
+            let c = V::Concat(Box::new(V::Int(1)), Box::new(V::Int(2)));
+            V::Concat(Box::new(c.clone()), Box::new(c))
+        },
+        l(vec![V::Int(1), V::Int(2), V::Int(1), V::Int(2)]),
+        {
+            let x = l(vec![V::Int(1), V::Int(2)]);
+            l(vec![x.clone(), x])
+        },
+        {
+            let x = pair(V::Int(1), V::Int(2));
+            pair(x.clone(), x)
+        },
     ]
 }
 
@@ -251,12 +278,16 @@ impl C11Check {
         }
         for imp in Impl::BOTH {
             for (ins, negate) in [(Instruction::Equal, false), (Instruction::NotEqual, true)] {
-                for swap in [false, true] {
+                // (operand order, build mode): fresh = every sub-value at its own address; sharing = identical sub-values
+                // (inside one operand and across both) live at one address
+                for (swap, sharing) in [(false, false), (true, false), (false, true)] {
                     ctx.sub_evals += 1;
                     let (x, y) = if swap { (b, a) } else { (a, b) };
-                    let out = match imp {
-                        Impl::Simple => call(&mut new_simple(), ins, x, Some(y)),
-                        Impl::Basic => call(&mut new_basic(), ins, x, Some(y)),
+                    let out = match (imp, sharing) {
+                        (Impl::Simple, false) => call(&mut new_simple(), ins, x, Some(y)),
+                        (Impl::Basic, false) => call(&mut new_basic(), ins, x, Some(y)),
+                        (Impl::Simple, true) => crate::model::opcall::call_sharing(&mut new_simple(), ins, x, Some(y)),
+                        (Impl::Basic, true) => crate::model::opcall::call_sharing(&mut new_basic(), ins, x, Some(y)),
                     };
                     let out = match out {
                         Ok(o) => o,
@@ -266,7 +297,7 @@ impl C11Check {
                             return;
                         }
                     };
-                    let what = format!("{} {} {} on {}", x, if negate { "!=" } else { "==" }, y, imp.name());
+                    let what = format!("{} {} {} on {}{}", x, if negate { "!=" } else { "==" }, y, imp.name(), if sharing { " (identical sub-values shared at one address)" } else { "" });
                     if let Some(loc) = &out.panicked {
                         ctx.fail(format!("panic@{}", loc), what.clone());
                         continue;
@@ -276,7 +307,7 @@ impl C11Check {
                         Some(g) => {
                             let want = expected != negate;
                             if g != want {
-                                let law = if swap { "asymmetric-or-wrong" } else { "wrong" };
+                                let law = if sharing { "wrong-with-shared-sub-values" } else if swap { "asymmetric-or-wrong" } else { "wrong" };
                                 ctx.fail(
                                     format!("equality-{}:{}:{}", law, kinds(x, y), if expected { "equal-values-reported-different" } else { "different-values-reported-equal" }),
                                     format!("{} gave {}, the values are {} by the statement", what, g, if expected { "equal" } else { "different" }),
@@ -311,7 +342,7 @@ impl Check for C11Check {
     }
     fn rule(&self) -> String {
         format!(
-            "Phase pool-pairs: every ordered pair of a pool of {} small values (units, booleans, ints/floats incl. 1 vs 1.0, char vs one-character text, byte vs one-byte list, multi-byte text, symbols, symbol lists, pairs, lists, nested lists, concatenations spelling the same flat sequence in different shapes, empty sequences, keyed lists in different order); \
+            "Phase pool-pairs: every ordered pair of a pool of {} small values (units, booleans, ints/floats incl. 1 vs 1.0, char vs one-character text, byte vs one-byte list, multi-byte text, symbols, symbol lists, pairs, lists, nested lists, concatenations spelling the same flat sequence in different shapes, empty sequences, keyed lists in different order, the same compound sub-value occurring twice); each pair is compared with every sub-value at its own address and again with identical sub-values shared at one address; \
              phase random: value trees (depth <= 3, width <= 4) from a proptest tape, each paired with a twin (same value built differently: int/float, char/text, list/concatenation split at a random point, different addresses), a near-miss mutant (one leaf changed, an item dropped or added at the end, mismatch after a long equal prefix) and an independent tree; transitivity on (tree, twin, twin-of-twin). \
              Each pair is compared in both orders with the Equal and NotEqual instructions called directly on operands placed above two sentinel registers, and through the compiled program `$ . 0 == $ . 1`, on both data implementations. \
              Oracle: result = structural identity of canonical forms (numbers numerically, char = 1-char text, byte = 1-byte list, lists and concatenations as flat item sequences); symmetric; `!=` is the negation; exactly one register above the intact sentinels afterwards. \
